@@ -194,6 +194,7 @@ def run(ctx):
                 fail('unknown_not_flagged_json', {'lists': base, 'cat': c, 'name': n_, 'repeated': how}, jn, [{'fail': ['using unknown algorithm']}] * want_n)
         lines.append(rc.report_line(peer, False, imp['banner']))
         expect.append(('report', imp, ('repeated-unknown', how)))
+    whole_audit_neighbours(ctx, fail, cov)
     model = ctx.driver(lines) if ctx.driver_ok else []
     for line, m, (kind, want, what) in zip(lines, model, expect):
         if kind == 'lookup':
@@ -209,6 +210,86 @@ def run(ctx):
     return {'failures': failures, 'mismatches': mismatches, 'coverage': cov, 'corr_cases': len(model),
             'assumptions': ['the Terrapin context is deliberately excluded here (C04 covers it); sizes are covered by C11/C12'],
             'observations': []}
+
+
+# ---------------------------------------------------------------- whole audits: a host key's / key exchange's entry does not depend on what is advertised beside it
+
+def _hk_pool(r):
+    """host-key types with the blobs a scripted server presents for them (one RSA key for the whole RSA family)"""
+    import fakenet as fn
+    bits = r.choice([1024, 2048, 3072, 4096])
+    rsa = fn.rsa_blob(bits)
+    cab = r.choice([1024, 2048, 3072, 4096])
+    cas = {'rsa': fn.rsa_blob(cab), 'ed25519': fn.ed25519_blob(b'\x51' * 32), 'ecdsa': fn.ecdsa_blob('nistp256')}
+    ca1, ca2 = r.choice(sorted(cas)), r.choice(sorted(cas))
+    n = (1 << (bits - 1)) | 1
+    pool = {'ssh-rsa': rsa, 'rsa-sha2-256': rsa, 'rsa-sha2-512': rsa, 'ssh-ed25519': fn.ed25519_blob(), 'ssh-ed448': fn.ed448_blob(), 'ecdsa-sha2-nistp256': fn.ecdsa_blob('nistp256'),
+            'ecdsa-sha2-nistp384': fn.ecdsa_blob('nistp384', 97), 'ssh-dss': fn.dss_blob(1024),
+            'ssh-rsa-cert-v01@openssh.com': fn.cert_blob('ssh-rsa-cert-v01@openssh.com', fn.mpint(65537) + fn.mpint(n), cas[ca1]),
+            'ssh-ed25519-cert-v01@openssh.com': fn.cert_blob('ssh-ed25519-cert-v01@openssh.com', fn.sstr(b'\x42' * 32), cas[ca2])}
+    return pool, {'rsa_bits': bits, 'ca_bits': cab, 'ca_of_rsa_cert': ca1, 'ca_of_ed25519_cert': ca2}
+
+
+def _audit_entries(keys, kexs, blobs, gex_bits):
+    """real main() (-j and text) on a scripted server; returns {category: {name: [json entry, text lines]}} for key and kex"""
+    import re as _re
+    import fakenet as fn
+    srv = fn.simple_server(kex=tuple(kexs) + (pg.STRICT_S, pg.STRICT_C), key=tuple(keys), enc=('aes256-ctr',), mac=('hmac-sha2-256',), banner=b'SSH-2.0-OpenSSH_8.9',
+                           hostkeys={k: blobs[k] for k in keys if k in blobs}, gex=(lambda mn, pf, mx: gex_bits if (gex_bits and mn <= gex_bits <= mx) else None))
+    code, jtext = fn.run_main(['-n', '--skip-rate-test', '-j', '10.3.0.1'], fn.FakeNet({'10.3.0.1': srv}))
+    doc = json.loads(jtext)
+    code2, text = fn.run_main(['-n', '--skip-rate-test', '10.3.0.1'], fn.FakeNet({'10.3.0.1': srv}))
+    res = {}
+    for c in ('key', 'kex'):
+        res[c] = {}
+        for e in doc[c]:
+            res[c].setdefault(e['algorithm'], [e, []])
+        cur = None
+        for line in text.split('\n'):
+            if line.startswith('(%s) ' % c):
+                body = line[6:]
+                shown = body.split(' -- ')[0].rstrip()
+                ent = res[c].get(shown.split(' (')[0])
+                cur = None
+                if ent is not None and not ent[1]:
+                    cur = ent[1]
+                    cur.append(_re.sub(r'\s+', ' ', body.strip()))
+            elif line.lstrip().startswith('`- ') and cur is not None:
+                cur.append(_re.sub(r'\s+', ' ', line.strip()))
+            else:
+                cur = None
+    return res
+
+
+def whole_audit_neighbours(ctx, fail, cov):
+    r = ctx.rng
+    alone_cache = {}
+    for k in range(ctx.scale(14, 250)):
+        pool, meta = _hk_pool(r)
+        names = sorted(pool)
+        if k == 0:      # an RSA certificate signed by an ECDSA CA, probed before the plain keys (seed C03-7)
+            keys = ['ssh-ed25519', 'ssh-rsa-cert-v01@openssh.com', 'ecdsa-sha2-nistp256']
+        else:
+            keys = r.sample(names, r.randint(2, 5))
+        gex_bits = r.choice([None, 1024, 2048, 3072, 4096])
+        kexs = ['curve25519-sha256'] + r.sample(['diffie-hellman-group-exchange-sha256', 'diffie-hellman-group-exchange-sha1', 'diffie-hellman-group14-sha256', 'ecdh-sha2-nistp256', 'diffie-hellman-group1-sha1'], r.randint(0, 3))
+        full = _audit_entries(keys, kexs, pool, gex_bits)
+        cov.add(('whole-neighbours', tuple(keys), tuple(kexs), json.dumps(meta, sort_keys=True), gex_bits), True, tags=['whole-audit-neighbours'] + ['hk:' + t for t in keys])
+        for c, lst in (('key', keys), ('kex', kexs)):
+            for n_ in lst:
+                if c == 'kex' and n_ == 'curve25519-sha256':
+                    continue
+                ck = (c, n_, json.dumps(meta, sort_keys=True) if c == 'key' else gex_bits)
+                if ck not in alone_cache:
+                    # the same name alone in its category (the other category as small as a working handshake allows), presenting the same key / group
+                    a = _audit_entries([n_] if c == 'key' else ['ssh-ed25519'], ['curve25519-sha256'] + ([n_] if c == 'kex' else []), pool, gex_bits)
+                    alone_cache[ck] = a[c].get(n_)
+                ref, got = alone_cache[ck], full[c].get(n_)
+                if ref is None or got is None:
+                    continue
+                if got != ref:
+                    fail('entry_changes_with_neighbours', {'whole_audit': True, 'cat': c, 'name': n_, 'keys': keys, 'kexs': kexs, 'meta': meta, 'gex_bits': gex_bits},
+                         {'json': got[0], 'text': got[1][:4]}, {'json': ref[0], 'text': ref[1][:4]})
 
 
 def quiet_peer(c, lst):
